@@ -130,6 +130,7 @@ fn boxed(t: &T) -> BoxI {
         T::F(x) => Box::new(boxed(x)), T::R(_) => panic!("R only at the root"),
     }
 }
+pub fn boxed_pub(t: &T) -> Box<dyn Inspect> { boxed(t) }
 /// children of C / T are written F(..) in the tree syntax: the Box IS the Fwd node
 fn child(t: &T) -> BoxI { match t { T::F(x) => boxed(x), _ => panic!("child of C/T must be F(..)") } }
 
@@ -212,6 +213,7 @@ fn run<B: Inspect>(b: B, ops: &[String], o: &mut String) {
     }
 }
 pub fn run_case(tree: &str, ops: &[String]) -> String {
+    crate::progress(&format!("{} {}", tree, ops.join(" ")));
     let t = parse_tree(tree);
     let mut o = format!("B {}", tree);
     fn root<'a>(t: &T, ops: &[String], o: &mut String) {
